@@ -666,7 +666,7 @@ func sectionIdentity(rng *vh.Rng) {
 		"in-process server, real tindex: 6..19 GetOrCreateJournal(+Release) calls over 2..8 tag sets (Safe value pool; 1/4 of the sets from a pool with quotes, blanks, non-ASCII), near-neighbour sets (one pair more, one value longer), every call a fresh spelling (order, blanks, braces, raw / strconv.Quote / backquote), 1/12 the canonical line itself (fast path), 1/12 malformed; ids renamed densely; every answer vs MODEL, every pair of accepted texts vs SPEC (same id iff same set). non-trivial = at least one pair of accepted texts, distinct by text sequence")
 	n := 200
 	if args.Thorough {
-		n = 6000
+		n = 4500 // ≈70 s on a machine with load average 100
 	}
 	var cs []identCase
 	for _, f := range vh.CorpusFiles(args.Corpus) {
